@@ -8,7 +8,7 @@ use std::rc::Rc;
 pub const DEF: PropDef = PropDef {
     id: "C04",
     level: "exploration",
-    rule: "complete enumeration of all control skeletons (blocks of 1..3 statements; say <marker> | if C [else] | while G | until G | break | continue; nesting <= 3; break/continue only inside loops) up to the node bound with the core alphabet (C in {true,false}, one self-exhausting guard `roll q` over a two-item queue), plus every single deviation to the rich alphabet (conditions of every value kind, other guards, long spellings, an erroring statement, empty then-block, unterminated last block) on every program of <= 5 (thorough 7) nodes; the marker trace and outcome are compared with the reference interpreter run on the parsed tree; non-trivial = contains at least one if or loop and was judged; distinct = distinct program text",
+    rule: "complete enumeration of all control skeletons (blocks of 1..3 statements; say <marker> | if C [else] | while G | until G | break | continue; nesting <= 3; break/continue only inside loops) up to the node bound with the core alphabet (C in {true,false}, one self-exhausting guard `roll q` over a two-item queue), plus every single deviation to the rich alphabet (conditions of every value kind, other guards, long spellings, an erroring statement, empty then-block, unterminated last block) on every program of <= 5 (thorough 7) nodes; plus 11 conditions that print, consume or fail when evaluated x 18 shapes (empty then / else / loop bodies closed by end of input or else, at top level, in a loop, in a function; loops left by break from depth 1 and 3, by continue-then-break, by return; nested loops); the marker trace and outcome are compared with the reference interpreter run on the parsed tree; non-trivial = contains at least one if or loop and was judged; distinct = distinct program text",
     assumptions: &["reference interpreter (refmodel/interp.rs) written from the property text", "programs larger than the node bound, and several simultaneous rich deviations, are not covered"],
     build,
     exhaustive: true,
@@ -255,6 +255,42 @@ pub fn render(prog: &[Sk], dev: Dev, close_last: bool) -> String {
     out
 }
 
+/// conditions and guards that do something when evaluated (print, consume, fail)
+pub const EFFECT_CONDS: &[&str] = &["loud taking 1", "loud taking 0", "boom taking 1", "roll q", "not roll q", "loud taking 1 and loud taking 0", "loud taking 0 or loud taking 2", "1 is less than true", "zed", "q at q", "roll q is 1"];
+/// empty blocks where the text leaves no choice how they close (end of input, directly before else), and
+/// loops left by break / continue / return whose guard has an effect; `@C` is the condition
+pub const EFFECT_SHAPES: &[&str] = &[
+    "if @C\n",
+    "if @C\nelse\nsay 2\n\nsay 3\n",
+    "if @C\nsay 1\nelse\n",
+    "say 0\nif @C\n",
+    "while c is less than 2\nbuild c up\nif @C\n",
+    "while c is less than 2\nbuild c up\nsay c\nif @C\nelse\nsay 2\n\n\nsay 3\n",
+    "fun takes k\nif @C\nelse\nsay 2\n\ngive back 1\n\nsay fun taking 1\nsay q\n",
+    "while @C\n",
+    "until @C\n",
+    "say 0\nuntil c is 1\nbuild c up\nwhile @C\n",
+    "if @C\nsay 1\n\nsay q\n",
+    "while @C\nsay 1\nbreak\n\nsay q\n",
+    "while @C\nsay 1\nif true\nif true\nbreak\n\n\nsay 7\n\nsay q\n",
+    "until @C\nsay 1\nbreak\n\nsay q\n",
+    "while @C\nbuild c up\nif c is less than 2\ncontinue\n\nsay c\nbreak\n\nsay q\n",
+    "fun takes k\nwhile @C\nsay 1\ngive back 5\n\ngive back 6\n\nsay fun taking 1\nsay q\n",
+    "fun takes k\nuntil @C\nif true\ngive back 5\n\n\ngive back 6\n\nsay fun taking 1\nsay q\n",
+    "while c is less than 2\nbuild c up\nwhile @C\nbreak\n\nsay c\n\nsay q\n",
+];
+const EFFECT_PRELUDE: &str = "rock q with 1, 0, 2, 1, 1\nloud takes k\nsay \"loud\"\nsay k\ngive back k\n\nboom takes k\nsay - true\n\nput 0 into c\n";
+
+pub fn effect_programs() -> Vec<String> {
+    let mut v = Vec::new();
+    for sh in EFFECT_SHAPES {
+        for c in EFFECT_CONDS {
+            v.push(format!("{}{}", EFFECT_PRELUDE, sh.replace("@C", c)));
+        }
+    }
+    v
+}
+
 pub struct C04 {
     core: Space<Vec<Sk>>,
     small: Space<Vec<Sk>>,
@@ -280,6 +316,7 @@ impl C04 {
             0 => render(&self.core.get(idx), None, true),
             1 => render(&self.small.get(idx), None, false),
             3 => super::scale::programs()[idx as usize].clone(),
+            4 => effect_programs()[idx as usize].clone(),
             _ => {
                 let p = match self.dev_prefix.binary_search(&idx) {
                     Ok(mut p) => {
@@ -305,6 +342,7 @@ impl Check for C04 {
             ("closed-by-end-of-input".into(), self.small.len()),
             ("rich-deviation".into(), *self.dev_prefix.last().unwrap()),
             ("thresholds".into(), super::scale::programs().len() as u64),
+            ("effectful conditions and guards".into(), effect_programs().len() as u64),
         ]
     }
     fn describe(&self, fam: usize, idx: u64) -> Value {
@@ -331,6 +369,6 @@ impl Check for C04 {
         }
     }
     fn static_coverage(&self) -> Value {
-        json!({"condition_alternatives": COND_ALTS, "loop_guard_alternatives": LOOP_ALTS})
+        json!({"effectful_conditions": EFFECT_CONDS, "effect_shapes": EFFECT_SHAPES, "condition_alternatives": COND_ALTS, "loop_guard_alternatives": LOOP_ALTS})
     }
 }
